@@ -106,8 +106,10 @@ func (d *Driver) Ask(line string) string {
 			panic(fmt.Sprintf("driver %s: read after %q: %v", d.name, line, r.err))
 		}
 		return strings.TrimSpace(r.s)
-	case <-time.After(30 * time.Second):
-		panic(fmt.Sprintf("driver %s: no answer to %q within 30s", d.name, line))
+	case <-time.After(180 * time.Second):
+		// the model driver answers in microseconds; the bound only has to end a genuinely dead pipe, and it must
+		// not fire on a machine that is merely overloaded (a 30 s bound did once, at load average 90 on 16 cores)
+		panic(fmt.Sprintf("driver %s: no answer to %q within 180s", d.name, line))
 	}
 }
 
